@@ -858,9 +858,48 @@ func (c *simCtx) oracleCmp(b *ssa.BinOp) (bool, bool) {
 			if fails, known := c.errValueFails(ev); known && fails {
 				return b.Op == token.NEQ, true
 			}
+			// the error of a module function that returns a nil error on every path (for
+			// instance because the error it tests is a shadowed copy): certainly nil
+			if neverReturnsError(c.e.w, ev) {
+				return b.Op == token.EQL, true
+			}
 		}
 	}
 	return false, false
+}
+
+// neverReturnsError: ev is the error result of a call to a module function all of
+// whose returns carry a definitely-nil error operand.
+func neverReturnsError(w *World, ev ssa.Value) bool {
+	ev = resolve(ev)
+	var call *ssa.Call
+	idx := 0
+	switch x := ev.(type) {
+	case *ssa.Extract:
+		cc, ok := x.Tuple.(*ssa.Call)
+		if !ok {
+			return false
+		}
+		call, idx = cc, x.Index
+	case *ssa.Call:
+		call = x
+	default:
+		return false
+	}
+	g := calleeOf(call)
+	if g == nil || !w.InModule(g) || g.Blocks == nil || errResultIndex(g) != idx {
+		return false
+	}
+	rets := returnsOf(g)
+	if len(rets) == 0 {
+		return false
+	}
+	for _, ret := range rets {
+		if classifyReturn(g, ret) != retSuccess {
+			return false
+		}
+	}
+	return true
 }
 
 // intConstOf: an integer constant, or an integer parameter whose value is a
